@@ -28,7 +28,7 @@ func (h *H) startGRPC() error {
 		return nil
 	}
 	lis := bufconn.Listen(1 << 20)
-	gs := grpc.NewServer(grpc.UnaryInterceptor(h.serverInterceptor))
+	gs := grpc.NewServer(grpc.UnaryInterceptor(h.serverInterceptor), grpc.StreamInterceptor(h.serverStreamInterceptor))
 	for name, m := range h.svcs {
 		def := m.def
 		if def.GRPCNewServer == nil {
@@ -90,6 +90,35 @@ func (h *H) serverInterceptor(ctx context.Context, req any, info *grpc.UnaryServ
 		}
 	}
 	return handler(ctx, req)
+}
+
+// serverStreamInterceptor records the request metadata of a streaming call and
+// brackets the handler so that the client end can wait for it.
+func (h *H) serverStreamInterceptor(srv any, ss grpc.ServerStream, info *grpc.StreamServerInfo, handler grpc.StreamHandler) error {
+	cs := h.state(nil)
+	if cs != nil {
+		cs.smu.Lock()
+		cs.started++
+		cs.smu.Unlock()
+		defer func() {
+			cs.smu.Lock()
+			cs.finished++
+			cs.smu.Unlock()
+		}()
+		if md, ok := metadata.FromIncomingContext(ss.Context()); ok {
+			cs.mu.Lock()
+			cs.obs.GRPCMetadata = map[string][]string{}
+			for k, v := range md {
+				switch k {
+				case ":authority", "content-type", "user-agent", "grpc-accept-encoding":
+					continue
+				}
+				cs.obs.GRPCMetadata[k] = v
+			}
+			cs.mu.Unlock()
+		}
+	}
+	return handler(srv, ss)
 }
 
 // clientInterceptor records the response header and trailer metadata and the status code.
